@@ -46,7 +46,7 @@ func vMakeLeader(r *Raft, tag string, selfIdx int) {
 // C13.LEASE-STEP: one checkLeaderLease on an arbitrary leader.
 func vh_lease_step() {
 	n := vChoose("n", 1, 3+vTier())
-	r, env := vNewRaft("a", vRaftOpts{n: n})
+	r, env := vNewRaft("a", vRaftOpts{n: n, splitCommitted: true})
 	vAssume(vInvBasic(r, env))
 	selfIdx := vChoose("self", -1, n-1)
 	vMakeLeader(r, "a", selfIdx)
@@ -119,7 +119,7 @@ func vh_lease_step() {
 // in an arbitrary order + the verify case of leaderLoop.
 func vh_verify_count() {
 	n := vChoose("n", 1, 3+vTier())
-	r, env := vNewRaft("a", vRaftOpts{n: n})
+	r, env := vNewRaft("a", vRaftOpts{n: n, splitCommitted: true})
 	vAssume(vInvBasic(r, env))
 	selfIdx := vChoose("self", 0, n-1)
 	vMakeLeader(r, "a", selfIdx)
